@@ -341,7 +341,9 @@ def _dict_method(slf, f, a, k):
                 return slf[kk]
     elif nm == 'update':
         if a and isinstance(a[0], dict) and (_anysym(slf) or _anysym(a[0])) and not k:
-            for kk, vv in list(a[0].items()):
+            with hash_ok():          # an OrderedDict's items view looks every key up by hash
+                pairs = list(a[0].items())
+            for kk, vv in pairs:
                 _vf_setitem(slf, kk, vv)
             return None
         if a and not isinstance(a[0], dict) and _anysym(slf):
